@@ -80,6 +80,13 @@ def check(op, args, res):
         r = [] if panicked else [int(x) for x in res]
     except ValueError:
         return "unparsable line"
+    if op == "d4gate":
+        checks = ["extension evaluator returns as many values as the gate declares", "base-field batch evaluator equals the extension evaluator",
+                  "low degree / declared count (gate_testing::test_low_degree)", "in-circuit evaluator equals the native one (gate_testing::test_eval_fns)",
+                  "a D = 4 circuit using the gate family is proved and verified"]
+        if r == [1]:
+            return None
+        return "extension degree %d, gate #%d of harness/src/c07d4.rs: %s - FAILED" % (a[0], a[1], checks[a[2]] if a[2] < len(checks) else "check %d" % a[2])
     if op in ("gensat", "pinned", "basevsext", "circuit_agrees", "lowdeg", "filter") and panicked:
         return "implementation panicked"
     if op == "sizes" and panicked:
